@@ -19,12 +19,12 @@ Qed.
 Theorem pushed_sound c a op al col v :
   In (op, al, col, v) (pushed c a) -> In (CCmp op al col v) (conjuncts c) /\ al = a.
 Proof.
-  unfold pushed. destruct (has_or c); [contradiction|]. intros H. apply of_alias_In in H as [H Ha].
+  unfold pushed. destruct (has_or c); [contradiction|]. intros H. apply filter_In in H as [H _]. apply of_alias_In in H as [H Ha].
   apply conj_cmps_In in H. simpl in H. split; [exact H|exact Ha].
 Qed.
 
-(* and when no OR occurs anywhere, all of them are pushed *)
-Theorem pushed_complete c a : has_or c = false -> pushed c a = pushed_spec c a.
+(* and when no OR occurs anywhere, all of them are pushed, except IS NULL *)
+Theorem pushed_complete c a : has_or c = false -> pushed c a = filter not_isnull (pushed_spec c a).
 Proof. intros H. unfold pushed, pushed_spec. now rewrite H. Qed.
 
 (* ---------- WHERE: model arguments ---------- *)
